@@ -107,7 +107,7 @@ enum Step {
 
 /// Build B from A's saved state: fresh Vfs, restore, re-attach twin backends.
 fn restore_twin(a: &World, bytes: &mut Vec<u8>, fresh_opts: VfsOptions) -> Result<World, Fail> {
-    let mut b = World::new(fresh_opts, a.m.global);
+    let mut b = World::new_with(fresh_opts, a.m.global, a.remove_pseudo_root);
     b.vfs.restore_from_bytes(bytes).map_err(|e| ("C19:restore-failed".to_string(), format!("restore_from_bytes failed: {:?}", e)))?;
     // same model, twin backends
     b.m.pseudo = a.m.pseudo.clone();
@@ -167,7 +167,12 @@ fn history(args: &Args, rep: &mut Report, idx: u64) {
     }
     let old_format = r.chance(1, 5);
     let fresh_is_default = r.chance(1, 2);
-    let mut a = World::new(opts, global);
+    // a third of the histories run with set_remove_pseudo_root() (the FUSE-style configuration), over
+    // single-component paths only
+    let rpr = r.chance(1, 3);
+    const FLAT: &[&str] = &["/a", "/c", "/e", "/w"];
+    let paths: &[&str] = if rpr { FLAT } else { PATHS };
+    let mut a = World::new_with(opts, global, rpr);
     let nsteps = r.range(2, 9);
     let mut steps: Vec<Step> = Vec::new();
     let mut did_init = false;
@@ -178,10 +183,11 @@ fn history(args: &Args, rep: &mut Report, idx: u64) {
                 // includes the "client offers nothing" negotiation
                 Step::Init(*r.pick(&[0u64, u64::MAX, 0x1, kconst("FUSE_NO_OPEN_SUPPORT"), 0xffff_ffff]))
             }
-            1 => Step::Umount(*r.pick(PATHS)),
+            1 | 2 if rpr => Step::Umount(*r.pick(paths)),
+            1 => Step::Umount(*r.pick(paths)),
             _ => {
                 let given = if !old_format && r.chance(1, 2) { *r.pick(MAPPINGS) } else { None };
-                Step::Mount(*r.pick(PATHS), given, if r.chance(1, 3) { r.range(2, 30) } else { 1 })
+                Step::Mount(*r.pick(paths), given, if r.chance(1, 3) { r.range(2, 30) } else { 1 })
             }
         });
     }
